@@ -562,9 +562,18 @@ class Gen:
             opts += ["call"] * 2
         if n >= 64 and self.bkind == "bytes" and self.ext_ok(cx) and d > 0:
             opts += ["echo_b"] * 2
+        if d > 0 and leaves and "ifexp" in self.feat:
+            opts += ["ifexp"]
         if not opts:
             return None if nonlit else self.bytes_lit(n)
         k = r.choice(opts)
+        if k == "ifexp":
+            a = r.choice(leaves)
+            same = [l for l in leaves if l.ty == a.ty]
+            c = self.nonlit(cx, scope, BOOL, 1)
+            if c is not None:
+                return E("ifexp", a.ty, c=c, a=a, b=r.choice(same).clone())
+            k = "leaf"
         if k == "leaf":
             return r.choice(leaves)
         if k == "lit":
@@ -653,6 +662,15 @@ class Gen:
             return self.call_expr(cx, scope, r.choice(fs), d)
         if x < 0.6:
             return E("const", t, v=zero_val(t)) if t[0] != "struct" else self.composite_lit(t)
+        if x < 0.72 and d > 0 and "ifexp" in self.feat and (cands or fs):
+            # IfExp selecting between multi-word values (variables / call results), e.g. as a call argument
+            c = self.nonlit(cx, scope, BOOL, 1)
+            if c is not None:
+                def branch():
+                    if fs and (not cands or r.random() < 0.3):
+                        return self.call_expr(cx, scope, r.choice(fs), d - 1)
+                    return r.choice(cands).clone()
+                return E("ifexp", t, c=c, a=branch(), b=branch())
         # literal with computed elements
         if t[0] == "sarr":
             return E("list", t, elems=[self.expr(cx, scope, t[1], d - 1) for _ in range(t[2])])
